@@ -190,6 +190,7 @@ func (c *c19Client) Get(ctx context.Context, key client.ObjectKey, obj client.Ob
 			u.TypeMeta = metav1.TypeMeta{}
 			if t != nil {
 				t.servedUID = u.UID
+				t.servedDeleting = u.DeletionTimestamp != nil
 			}
 			return c.leave(t, call, v1beta1.UsageKind, key.Name, nil)
 		}
